@@ -6,14 +6,29 @@ PROP = {'module': 'GolibsVerif.Theorems.C06',
          'formulas regenerated from the source, and by membership in the documented lists parsed from the doc comments at run time; '
          'non-trivial = the address is in a listed network or shares >= 8 leading bits (or all but one bit of a shorter prefix) with one '
          'of its family; exhaustive IPv4 sweeps count as one non-trivial case each; distinct = distinct case line',
- 'trusted': ['the translator gen/subnets.go (go/ast -> F/D terms and doc comment -> prefix lists); guarded on every run by evaluating the '
-             "regenerated terms and lists in the Lean driver on the same addresses as the real functions and the harness's own doc-comment "
-             'parser (Impl line), and it refuses constructs outside its subset',
-             'net/netip: AddrFrom4/AddrFrom16/WithZone/Is4/Is4In6/As4/As16 as modelled in Model/C06.lean (Addr.kind, as4, as16), '
-             'ParsePrefix and Prefix.Contains in the harness oracle',
+ 'trusted': ['the translator gen/subnets.go + gen/symexec.go + gen/symval.go (go/ast + go/types -> F/D terms and doc comment -> prefix '
+             'lists): a symbolic executor in which only the bytes of the [N]byte parameter are symbolic (bit level); tables, masks, '
+             'loops over tables and the package\'s own helpers/constructors are executed, i.e. inlined and unrolled; guarded on every '
+             "run by evaluating the regenerated terms and lists in the Lean driver on the same addresses as the real functions and the "
+             "harness's own doc-comment parser (Impl line), and it refuses constructs outside its subset",
+             'net/netip: AddrFrom4/AddrFrom16/WithZone/Is4/Is4In6/As4/As16/Unmap as modelled in Model/C06.lean (Addr.kind, as4, as16, '
+             'unmap), ParsePrefix and Prefix.Contains in the harness oracle',
+             'stdlib behaviour the translator relies on when the source uses it (go1.24 documentation): netip.AddrFrom16 "returns the '
+             'IPv6 address given by the bytes in addr. An IPv4-mapped IPv6 address is left as an IPv6 address"; netip.Prefix.Contains '
+             '"An IPv4 address will not match an IPv6 prefix. An IPv4-mapped IPv6 address will not match an IPv4 prefix. A zero-value IP '
+             'will not match any prefix", otherwise equality of the leading Bits() bits (translated to prefixF of Model/C06F.lean, whose '
+             'meaning is prefixF_spec; ParsePrefix does not mask host bits and prefixF ignores them likewise); netip.Addr.Unmap "if ip is '
+             'an IPv6 address wrapping an IPv4 address, it returns the wrapped IPv4 address. Otherwise it returns ip unmodified"; the '
+             'prefix/address TEXTS are parsed by the translator\'s own net/netip (same toolchain as the harness); '
+             'encoding/binary.BigEndian/LittleEndian.Uint16/32/64 = the first 2/4/8 bytes in that order; slices.ContainsFunc = "at least '
+             'one element e of s satisfies f(e)"; bytes.Equal/HasPrefix; Go integer semantics (wrap-around, shifts >= width give 0, uint '
+             'taken as 64 bits)',
+             'package-level tables are read from their initialisers: the translator rejects tables that are exported, assigned, '
+             'element-assigned, address-taken or passed to a pointer-receiver method anywhere in the package; mutation through an alias '
+             '(s := table; s[0] = …) is not tracked (it would be seen by the differential run)',
              'that the documented lists equal RFC 6303 / the IANA registries is NOT claimed: the property is stated against the '
              'documentation'],
- 'level_text': 'Lean theorems for ALL 2^32 IPv4 and 2^128 IPv6 addresses (any zone, 4in6, zero Addr): the byte-switch bodies of '
+ 'level_text': 'Lean theorems for ALL 2^32 IPv4 and 2^128 IPv6 addresses (any zone, 4in6, zero Addr): the bodies (byte switches, integer mask tables, netip.Prefix tables, …) of '
                'isLocallyServedV4/V6, isSpecialPurposeV4/V6 and the dispatch of IsLocallyServed/IsSpecialPurpose, re-translated from the '
                'current source into Lean terms on every run, are equivalent to bit-level containment in the networks listed in the two doc '
                'comments (also re-parsed on every run); proved by a verified reflective checker (check_sound) evaluated in the kernel, '
@@ -22,10 +37,10 @@ PROP = {'module': 'GolibsVerif.Theorems.C06',
                'check_sound, prefixF_spec, cex_sound; nothing partial. Tie: regenerated model (T-gen) + differential run of the '
                'regenerated terms against the real functions (guards the translator) + exhaustive IPv4 sweep of the real code against the '
                'documentation oracle (first octets carrying listed networks in the quick tier, all 2^32 in the thorough tier). trusted: '
-               'Lean kernel, the ~500-line translator, the netip model',
+               'Lean kernel, the ~3400-line translator (symbolic executor), the netip model',
  'assumptions': ['netip.Addr is modelled as zero value | 32-bit IPv4 | 128-bit IPv6 + zone string; Is4 is false for 4in6 (as in net/netip)',
                  'membership is netip.Prefix.Contains on the address without its zone (Contains itself is false for zoned addresses; the '
                  "property text says 'with or without zone')"],
  'technique': 'reflective decision procedure for byte formulas (Shannon expansion per byte, residual de-duplication) proved sound in Lean '
-              'and run by decide +kernel on terms regenerated from the Go source; go/ast translator; counterexample finder F.cexVec whose '
+              'and run by decide +kernel on terms regenerated from the Go source; go/ast + go/types symbolic-execution translator; counterexample finder F.cexVec whose '
               'output the harness replays on the real code'}
